@@ -227,6 +227,11 @@ def run_case(rng, idx, tier, lane, ctx):
             break
         counters["steps"] += 1
         counters["mut_" + kind] = counters.get("mut_" + kind, 0) + 1
+        if rng.random() < 0.15 and defn["params"]:
+            # mutator calls that are (rightly) refused leave the definition - and therefore every evaluator - as it was
+            from verifkit.gen import specs as _G
+            counters["rejected_mutations"] = counters.get("rejected_mutations", 0) + _G.rejected_mutations(m, {"states": list(S), "params": list(defn["params"])}, rng)
+            hist.append(["<rejected mutations>"])
         for e in compiled:
             pairs.add((kind, e))
         with contextlib.redirect_stdout(io.StringIO()):
